@@ -564,6 +564,20 @@ func (ls *Lockset) recordReachable(f *ssa.Function, fa *ssa.FieldAddr, kind stri
 	if !strings.HasPrefix(base, "recv.") {
 		return
 	}
+	// a write into a local struct *value* that was initialised from the state (newAddress := *r.address) changes
+	// the copy, not the state: paths identify such a local with what it was copied from
+	for x := ssa.Value(fa); x != nil; {
+		switch y := x.(type) {
+		case *ssa.FieldAddr:
+			x = y.X
+			continue
+		case *ssa.Alloc:
+			if _, isStruct := derefType(y.Type()).Underlying().(*types.Struct); isStruct {
+				return
+			}
+		}
+		break
+	}
 	fld := fieldOfAddr(fa)
 	// name the state by the spine field it hangs off: recv.address.Device -> <owner of address>.address->Device
 	owner := rn.Obj().Name()
